@@ -18,6 +18,9 @@ def DataFrame_select (truth : Term → Bool) : Out :=
 /-- the decorators of dataiter/data_frame.py: DataFrame.select, outermost first -/
 def DataFrame_select_decorators : List String := ["deco.new_from_generator"]
 
+/-- the signature of dataiter/data_frame.py: DataFrame.select: parameters in order, with the source text of their defaults -/
+def DataFrame_select_signature : List String := ["self", "*colnames"]
+
 /-- dataiter/data_frame.py: DataFrame.unselect (sha256 of the function source: 4800fa2fa5405077) -/
 def DataFrame_unselect (truth : Term → Bool) : Out :=
   let eff0 : Term := (Term.app "for" [(Term.sym "colname"), (Term.app ".colnames" [(Term.sym "self")]), (Term.app "block" [(Term.app "if" [(Term.app "NotIn" [(Term.sym "colname"), (Term.sym "colnames")]), (Term.app "block" [(Term.app "yield" [(Term.app "tuple" [(Term.sym "colname"), (Term.app ".copy" [(Term.app "getitem" [(Term.sym "self"), (Term.sym "colname")])])])])]), (Term.app "block" [])])])]);
@@ -25,6 +28,9 @@ def DataFrame_unselect (truth : Term → Bool) : Out :=
 
 /-- the decorators of dataiter/data_frame.py: DataFrame.unselect, outermost first -/
 def DataFrame_unselect_decorators : List String := ["deco.new_from_generator"]
+
+/-- the signature of dataiter/data_frame.py: DataFrame.unselect: parameters in order, with the source text of their defaults -/
+def DataFrame_unselect_signature : List String := ["self", "*colnames"]
 
 /-- dataiter/data_frame.py: DataFrame.rename (sha256 of the function source: 1fc6f52d1123139b) -/
 def DataFrame_rename (truth : Term → Bool) : Out :=
@@ -35,6 +41,9 @@ def DataFrame_rename (truth : Term → Bool) : Out :=
 
 /-- the decorators of dataiter/data_frame.py: DataFrame.rename, outermost first -/
 def DataFrame_rename_decorators : List String := ["deco.new_from_generator"]
+
+/-- the signature of dataiter/data_frame.py: DataFrame.rename: parameters in order, with the source text of their defaults -/
+def DataFrame_rename_signature : List String := ["self", "**to_from_pairs"]
 
 /-- dataiter/data_frame.py: DataFrame.cbind (sha256 of the function source: 575c3a32e09cfb6e) -/
 def DataFrame_cbind (truth : Term → Bool) : Out :=
@@ -47,6 +56,9 @@ def DataFrame_cbind (truth : Term → Bool) : Out :=
 /-- the decorators of dataiter/data_frame.py: DataFrame.cbind, outermost first -/
 def DataFrame_cbind_decorators : List String := ["deco.new_from_generator"]
 
+/-- the signature of dataiter/data_frame.py: DataFrame.cbind: parameters in order, with the source text of their defaults -/
+def DataFrame_cbind_signature : List String := ["self", "*others"]
+
 /-- dataiter/data_frame.py: DataFrame.update (sha256 of the function source: b10bab4f7e928005) -/
 def DataFrame_update (truth : Term → Bool) : Out :=
   let eff0 : Term := (Term.app "for" [(Term.app "tuple" [(Term.sym "colname"), (Term.sym "column")]), (Term.app ".items" [(Term.sym "self")]), (Term.app "block" [(Term.app "if" [(Term.app "In" [(Term.sym "colname"), (Term.sym "other")]), (Term.app "block" [(Term.sym "continue")]), (Term.app "block" [])]), (Term.app "yield" [(Term.app "tuple" [(Term.sym "colname"), (Term.app ".copy" [(Term.sym "column")])])])])]);
@@ -56,5 +68,8 @@ def DataFrame_update (truth : Term → Bool) : Out :=
 
 /-- the decorators of dataiter/data_frame.py: DataFrame.update, outermost first -/
 def DataFrame_update_decorators : List String := ["deco.new_from_generator"]
+
+/-- the signature of dataiter/data_frame.py: DataFrame.update: parameters in order, with the source text of their defaults -/
+def DataFrame_update_signature : List String := ["self", "other"]
 
 end DI.Gen
